@@ -303,7 +303,13 @@ def _canaries(prop, lines):
             out.append((name, None))
             return
         r = copy.deepcopy(r)
-        fals(r)
+        try:
+            fals(r)
+        except Exception:
+            # the record found does not have the shape this falsifier expects (which can itself be what a
+            # broken codec produces): no canary of this kind in this run; the validation below judges the records
+            out.append((name, None))
+            return
         pre = []
         if prefix:
             sg = r["seg"]
